@@ -2106,6 +2106,15 @@ func (c *ChannelArbitrator) checkRemoteDanglingActions(
 	for htlcSetKey, htlcs := range activeHTLCs {
 		if htlcSetKey.IsRemote {
 			for _, htlc := range htlcs.outgoingHTLCs {
+				// The same HTLC may sit on both remote
+				// commitments with a different dust status.
+				// Keep the non-dust view, independent of the
+				// map iteration order.
+				prev, ok := remoteHTLCs[htlc.HtlcIndex]
+				if ok && prev.OutputIndex >= 0 {
+					continue
+				}
+
 				remoteHTLCs[htlc.HtlcIndex] = htlc
 			}
 		} else {
